@@ -30,6 +30,8 @@ func runC01(c *core.Ctx) {
 	c.RuleDoc("R01.7", "an entry is created only below an existing directory (os: ENOTDIR / ENOENT) — the analysis of R03.1")
 	c.RuleDoc("R01.8", "a record is stored under a path only where that path was found absent or not a directory (os: rename of a file onto a directory fails) — the analysis of R03.5")
 	c.RuleDoc("R01.9", "the in-memory listing compares child names with constants only")
+	c.RuleDoc("R01.13", "Rename stores a directory under the new name only where the new name is absent")
+	c.RuleDoc("R01.14", "a by-name method returns a constant nil only after the name was looked up")
 	c.RuleDoc("R01.12", "times are compared with IsZero/Equal, never with == (a zero time in another zone means 'leave unchanged')")
 	c.RuleDoc("R01.11", "a name that leads through a regular file fails as in os (ENOTDIR), so RemoveAll of it fails too (= R05.7)")
 	c.RuleDoc("R01.10", "Chmod, Stat, Rename, reads, seeks, ReadDir and Close never store a modification time")
@@ -55,6 +57,8 @@ func runC01(c *core.Ctx) {
 		r01ListingFilter(c, p)
 		r01ModTimeWriters(c, p, sh)
 		r01TimesComparedByValue(c, p)
+		r01DirOntoAbsentOnly(c, p, sh)
+		r01SuccessAfterLookup(c, p, sh)
 		if p.Target == load.Linux {
 			r05NotDirThroughFile(c, p, "R01.11")
 		}
@@ -70,6 +74,8 @@ func runC01(c *core.Ctx) {
 	c.Floor("R01.9", 1)
 	c.Floor("R01.10", 10)
 	c.Floor("R01.12", 1)
+	c.Floor("R01.13", 1)
+	c.Floor("R01.14", 3)
 }
 
 type openSituation struct {
@@ -1227,4 +1233,158 @@ func r01TimesComparedByValue(c *core.Ctx, p *load.Program) {
 	default:
 		c.OK("R01.12", key, "", "times are tested with IsZero/Equal only")
 	}
+}
+
+// r01DirOntoAbsentOnly (R01.13): in Rename a DIRECTORY record is stored under the new name only where the look-up of
+// the new name answered ErrNotExist: os.Rename refuses a directory onto an existing regular file (ENOTDIR) and onto a
+// non-empty directory; replacing the file's record by the directory loses the file and moves the children below it.
+func r01DirOntoAbsentOnly(c *core.Ctx, p *load.Program, sh *kvShape) {
+	fn := sh.methods["Rename"]
+	if fn == nil || len(fn.Params) < 3 {
+		c.Hard("anchor: keyvalue.FS.Rename")
+		return
+	}
+	newname := fn.Params[2]
+	n := 0
+	ord := ordinals{}
+	ssax.Instrs(fn, func(ins ssa.Instruction) {
+		cl, ok := ins.(*ssa.Call)
+		if !ok {
+			return
+		}
+		callee := ssax.StaticCallee(cl)
+		if callee == nil || !hasKey(sh.setFns, callee) {
+			return
+		}
+		pi := sh.setFns[callee]
+		if cl.Call.Args[pi] != ssa.Value(newname) || ssax.IsNilConst(cl.Call.Args[pi+1]) {
+			return
+		}
+		// the file branch (IsDir() of the old info known false) moves a file: judged by R01.8/R03.5
+		fileBranch, absent := false, false
+		for _, f := range ssax.FactsAtInstr(cl) {
+			if ic, ok := f.Cond.(*ssa.Call); ok && isIsDirCall(ic) && !f.Val {
+				fileBranch = true
+			}
+			if ev, sent, is := isErrorsIs(f.Cond); is && f.Val && sent == "ErrNotExist" {
+				if lp := sh.lookupPathOf(ev, 0); lp != nil && lp == ssa.Value(newname) {
+					absent = true
+				}
+			}
+		}
+		if fileBranch {
+			return
+		}
+		n++
+		key := fname(fn) + "|" + ord.next("directory-stored-only-where-the-new-name-is-absent")
+		c.Check(absent, "R01.13", key, p.Pos(cl.Pos()), "the directory record is stored on the ErrNotExist edge of the look-up of the new name",
+			fmt.Sprintf("%s stores a directory's record under the new name on a path on which the new name was not found absent: a directory renamed onto an existing regular file replaces the file's record (os: ENOTDIR, tree unchanged) and its children move below what was a file", fname(fn)))
+	})
+	if n == 0 {
+		c.Hard("anchor: store of the directory record under the new name in keyvalue.FS.Rename")
+	}
+}
+
+// r01SuccessAfterLookup (R01.14): an exported by-name method of the key-value FS returns a constant nil error only
+// after the name was handed to some function of the package (a look-up): a shortcut that answers "nothing to do"
+// before looking the name up succeeds on names that do not exist, where os fails with ENOENT/ENOTDIR.
+func r01SuccessAfterLookup(c *core.Ctx, p *load.Program, sh *kvShape) {
+	var names []string
+	for n := range sh.methods {
+		names = append(names, n)
+	}
+	sort.Strings(names)
+	cnt := 0
+	for _, mn := range names {
+		fn := sh.methods[mn]
+		if fn.Object() == nil || !fn.Object().Exported() || len(fn.Params) < 2 || !isStr(fn.Params[1].Type()) {
+			continue
+		}
+		eidx := ssax.ErrorResultIndex(fn.Signature)
+		if eidx < 0 {
+			continue
+		}
+		name := fn.Params[1]
+		var uses []ssa.Instruction
+		ssax.Instrs(fn, func(ins ssa.Instruction) {
+			cl, ok := ins.(*ssa.Call)
+			if !ok {
+				return
+			}
+			callee := ssax.StaticCallee(cl)
+			if callee == nil || !p.InModule(callee) || callee.Name() == "ValidPath" {
+				return
+			}
+			for _, a := range cl.Call.Args {
+				if a == ssa.Value(name) || dependsOnArgs(a, name, 0) {
+					uses = append(uses, ins)
+				}
+			}
+		})
+		bad := ""
+		rets := 0
+		for _, r := range ssax.Returns(fn) {
+			if !ssax.IsNilConst(resolveSpilled(r.Results[eidx], r)) {
+				continue
+			}
+			rets++
+			dominated := false
+			for _, u := range uses {
+				if ssax.Dominates(u, r) {
+					dominated = true
+				}
+			}
+			if !dominated {
+				bad = p.Pos(r.Pos())
+			}
+		}
+		if rets == 0 {
+			continue
+		}
+		cnt++
+		key := fname(fn) + "|constant-success-only-after-the-name-was-looked-up"
+		c.Check(bad == "", "R01.14", key, p.Pos(fn.Pos()), "every 'return nil' follows a call that received the name",
+			fmt.Sprintf("%s returns nil at %s before the name was handed to any function of the package: the operation succeeds on names that do not exist (or lie below a regular file), where os fails with ENOENT/ENOTDIR", fname(fn), bad))
+	}
+	if cnt < 3 {
+		c.Hard("anchor: by-name methods of keyvalue.FS with a constant nil return (found %d)", cnt)
+	}
+}
+
+func dependsOnArgs(v ssa.Value, root ssa.Value, d int) bool {
+	if v == nil || d > 6 {
+		return false
+	}
+	if v == root {
+		return true
+	}
+	switch x := v.(type) {
+	case *ssa.Call:
+		for _, a := range x.Call.Args {
+			if dependsOnArgs(a, root, d+1) {
+				return true
+			}
+		}
+	case *ssa.Slice:
+		return dependsOnArgs(x.X, root, d+1)
+	case *ssa.Alloc:
+		if x.Referrers() != nil {
+			for _, r := range *x.Referrers() {
+				if ia, ok := r.(*ssa.IndexAddr); ok && ia.Referrers() != nil {
+					for _, rr := range *ia.Referrers() {
+						if st, ok := rr.(*ssa.Store); ok && dependsOnArgs(st.Val, root, d+1) {
+							return true
+						}
+					}
+				}
+			}
+		}
+	case *ssa.Phi:
+		for _, e := range x.Edges {
+			if dependsOnArgs(e, root, d+1) {
+				return true
+			}
+		}
+	}
+	return false
 }
